@@ -273,3 +273,19 @@ def point_source_on_constrained(p, rng, prob=0.5):
         p.nodes[rng.choice(cands)]["bc"] = rng.choice(src)
         return True
     return False
+
+
+def use_all_bdry(p, types):
+    """put every boundary property of the given types that no line carries onto a free line of the outer box (not on the axis of an
+    axisymmetric problem): a condition that is defined but carried by nothing is not exercised"""
+    used = {s["bc"] for s in p.segs if s["bc"] >= 0}
+    n = 0
+    for bi, b in enumerate(p.bdryprops):
+        if b["type"] in types and bi not in used:
+            free = [s for s in p.segs[:4] if s["bc"] < 0 and s.get("cond", -1) < 0 and
+                    not (p.ptype == "axi" and p.nodes[s["n0"]]["x"] == 0 and p.nodes[s["n1"]]["x"] == 0)]
+            if free:
+                free[-1]["bc"] = bi
+                used.add(bi)
+                n += 1
+    return n
